@@ -277,6 +277,34 @@ def run_check(mod, tier, seed):
     return status
 
 
+def report_overrun(mod, tier, seed, deadline, t0):
+    """The supervised check did not finish within its wall-clock deadline (harness/vcheck.py): nothing it had found
+    can be read back, so the run is reported as a correspondence that no longer checks, with no failing input."""
+    pid = mod.ID
+    broken = {'proof_obligations': [],
+              'correspondence': [{'correspondence': 'check-did-not-finish',
+                                  'case': {'deadline_s': deadline, 'tier': tier, 'seed': seed},
+                                  'model': 'the check completes (about 0.5-2 min quick, up to ~40 min thorough on the '
+                                           'reference tree)',
+                                  'impl': f'still running after {deadline:.0f}s: some call into the code under test '
+                                          'does not return'}]}
+    replay_path = _write_replay(pid, {'kind': 'no-failing-input-found', 'broken': broken, 'searched': 0})
+    print(f'VIOLATION property={pid} replay={replay_path} no-failing-input-found', flush=True)
+    # level 'other': no proof obligation was recorded as discharged by this run, so it does not claim the proof level
+    ev = {'property_id': pid, 'tier': tier, 'seed': seed, 'level': 'other',
+          'coverage': {'obligations': len(mod.THEOREMS), 'discharged': 0,
+                       'checker_cmd': f'cd lean && lake build {mod.LEAN_MODULE} (run killed at the deadline before the audit '
+                                      'could be recorded)',
+                       'trusted_base': ['Lean 4.33.0 kernel', 'harness/ correspondence check (Python) and reflect.py'],
+                       'evaluations': 0, 'distinct_nontrivial': 0, 'rule': mod.RULE,
+                       'samples': ['<run killed at its wall-clock deadline; no case could be read back>'],
+                       'explanation': f'check did not finish within {deadline:.0f}s', 'exhaustive': False},
+          'assumptions': list(getattr(mod, 'ASSUMPTIONS', [])), 'wall_s': round(time.time() - t0, 2), 'violations': 1}
+    write_json(os.path.join(VERIF, 'evidence', f'{pid}.json'), ev)
+    print(f'{pid} {tier} seed={seed}: killed at the {deadline:.0f}s deadline -> exit 1', flush=True)
+    return 1
+
+
 def _is_infrastructure(e):
     """Failures of the machinery itself (build tools, the driver process, the OS, memory, imports) as opposed to the
     harness meeting an implementation answer it cannot interpret."""
@@ -286,7 +314,12 @@ def _is_infrastructure(e):
     if isinstance(e, RuntimeError) and str(e).startswith('driver '):
         return True
     name = type(e).__name__
-    return name in ('BrokenProcessPool', 'PicklingError', 'UnpicklingError', 'RecursionError')
+    if name in ('BrokenProcessPool', 'PicklingError', 'UnpicklingError', 'RecursionError'):
+        return True
+    # the same failures re-raised by a worker pool arrive wrapped (RemoteTraceback text, RuntimeError('worker crashed …'))
+    text = ''.join(traceback.format_exception(type(e), e, e.__traceback__))
+    return any(tok in text for tok in ('fsicdrv', 'lean_bridge.py", line', 'driver exited', 'driver returned',
+                                       'MemoryError', 'BrokenProcessPool', 'Errno', 'TimeoutExpired'))
 
 
 def _run_corpus(mod, ctx, rep):
